@@ -337,21 +337,37 @@ def main(pid, tier):
     root = common.scratch('store-replay')
     jobs = []
     for n, ops in enumerate(behaviours):
-        bks = BACKENDS if (thorough or n % 29 == 0) else [BACKENDS[n % len(BACKENDS)]]
+        if thorough:      # every backend for every 7th behaviour, a rotating three for the others
+            bks = BACKENDS if n % 7 == 0 else [BACKENDS[(n + j * 4) % len(BACKENDS)] for j in range(3)]
+        else:
+            bks = BACKENDS if n % 29 == 0 else [BACKENDS[n % len(BACKENDS)]]
         for bk in bks:
             jobs.append((bk, ops, os.path.join(root, 'j%d' % len(jobs)), n % 3 == 1))      # every third: second values are None
-    t0 = time.time()
-    ctx = multiprocessing.get_context('fork')
-    with ctx.Pool(common.NCPU) as pool:
-        traces = pool.map(_replay_one, jobs, chunksize=8)
-    bad = [t for t in traces if 'error' in t]
-    if bad:
-        raise common.MachineryError('store recorder failed: %s' % bad[0])
-    t_replay = time.time() - t0
-    verdicts, st = common.validate_traces('StoreTrace', [{k: t[k] for k in ('cfg', 'init', 'events')} for t in traces], [pid])
+    # replay and validation in batches (a thorough run has several hundred thousand (backend, sequence) pairs)
+    t_replay = 0.0
+    st = {'states': 0, 'events': 0, 'wall': 0.0}
     hashes = set()
-    nontriv = 0
-    for t, v in zip(traces, verdicts):
+    nontriv = nrejected = ntraces = 0
+    sample = None
+    CH = int(os.environ.get('VERIF_BATCH', '40000'))
+    ctx = multiprocessing.get_context('fork')
+    for lo in range(0, len(jobs), CH):
+      t0 = time.time()
+      with ctx.Pool(common.NCPU) as pool:
+          traces = pool.map(_replay_one, jobs[lo:lo + CH], chunksize=8)
+      bad = [t for t in traces if 'error' in t]
+      if bad:
+          raise common.MachineryError('store recorder failed: %s' % bad[0])
+      t_replay += time.time() - t0
+      verdicts, st1 = common.validate_traces('StoreTrace', [{k: t[k] for k in ('cfg', 'init', 'events')} for t in traces], [pid])
+      for k in ('states', 'events', 'wall'):
+          st[k] += st1[k]
+      ntraces += len(traces)
+      nrejected += sum(1 for v in verdicts if v)
+      if sample is None:
+          sample = {'backend': traces[0]['meta']['backend'], 'ops': traces[0]['meta']['ops'][:8],
+                    'events': [{k: e[k] for k in ('op', 'ret', 'exc', 'mem', 'archs', 'cur')} for e in traces[0]['events'][:4]]}
+      for t, v in zip(traces, verdicts):
         h = common.trace_hash([t['meta']['backend'], t['events']])
         if h not in hashes:
             hashes.add(h)
@@ -364,17 +380,16 @@ def main(pid, tier):
             rep.reject({'engine': 'store', 'backend': t['meta']['backend'], 'op': e['op'], 'clauses': v[1], 'exc': e['exc']},
                        {'backend': t['meta']['backend'], 'nonev': t['meta']['nonev'], 'ops': t['meta']['ops'][:v[0]], 'event_index': v[0],
                         'clauses': v[1], 'event': e})
-    sample = {'backend': traces[0]['meta']['backend'], 'ops': traces[0]['meta']['ops'][:8],
-              'events': [{k: e[k] for k in ('op', 'ret', 'exc', 'mem', 'archs', 'cur')} for e in traces[0]['events'][:4]]}
+      del traces, verdicts
     cov = {'states': sum(m['distinct'] for m in mcs) + st['states'],
            'transitions': sum(m['generated'] for m in mcs) + gen_states + st['events'],
-           'traces_validated_against_impl': len(traces), 'samples': [sample],
-           'evaluations': len(traces), 'distinct_nontrivial': nontriv,
+           'traces_validated_against_impl': ntraces, 'samples': [sample],
+           'evaluations': ntraces, 'distinct_nontrivial': nontriv,
            'rule': 'one evaluation = one operation sequence replayed on one backend; distinct by hash of (backend, events); '
                    'non-trivial = some load/dump/sync step changed the cache or an archive',
            'exhaustive': False,
            'model_checking': {'layer_I_runs': mcs, 'behaviours': len(behaviours), 'generation_states': gen_states},
-           'trace_validation': {'traces': len(traces), 'events': st['events'], 'rejected': sum(1 for v in verdicts if v),
+           'trace_validation': {'traces': ntraces, 'events': st['events'], 'rejected': nrejected,
                                 'wall_s': round(st['wall'], 1), 'replay_wall_s': round(t_replay, 1)},
            'backends': BACKENDS}
     return rep.finish('model_checking', cov, [
